@@ -28,6 +28,38 @@ TIER_LIMITS = {
 _INSTALLED = []
 
 
+_COVER = {}
+
+
+def _install_cover(repo):
+    """build-time aid (VCHECK_COVER=<dir>): record which lines of the code under test the harnesses execute."""
+    if _COVER:
+        return
+    import atexit
+    prefix = os.path.join(repo, 'bycycle') + os.sep
+    seen = set()
+    _COVER['seen'] = seen
+
+    def local(frame, event, arg):
+        if event == 'line':
+            seen.add((frame.f_code.co_filename, frame.f_lineno))
+        return local
+
+    def tracer(frame, event, arg):
+        if frame.f_code.co_filename.startswith(prefix):
+            seen.add((frame.f_code.co_filename, frame.f_lineno))
+            return local
+        return None
+
+    def dump():
+        d = os.environ['VCHECK_COVER']
+        os.makedirs(d, exist_ok=True)
+        with open(os.path.join(d, 'cov_%d.json' % os.getpid()), 'w') as f:
+            json.dump(sorted(seen), f)
+    _COVER['dump'] = dump
+    sys.settrace(tracer)
+
+
 def _explore(task):
     """Runs in a forked worker: explore one configuration of one harness."""
     hname, cfg, tier, seed, limits, prefix, split_at = task
@@ -52,6 +84,9 @@ def _explore(task):
         rng = random.Random(seed * 7919 + hash(json.dumps(cfg, sort_keys=True)) % 100003)
         want = limits['witness_per_cfg'] if prefix is None else max(1, limits['witness_per_cfg'] // 6)
         state = {'ctx': None, 'seen': 0}
+
+        if os.environ.get('VCHECK_COVER'):
+            _install_cover(env.REPO)
 
         def body():
             env.reset()
@@ -120,6 +155,8 @@ def _explore(task):
         out['error'] = '%s: %s\n%s' % (type(e).__name__, e,
                                        ''.join(traceback.format_exception(type(e), e, e.__traceback__))[-2500:])
     out['witnesses'] = [w for w in out['witnesses'] if w is not None]
+    if _COVER:
+        _COVER['dump']()
     out['wall'] = time.time() - t0
     return out
 
